@@ -2,6 +2,8 @@ import NeoFS.Lemmas.EpochStoresRepGet
 import NeoFS.Lemmas.EpochStoresAud
 import NeoFS.Lemmas.EpochStoresEstSpec
 import NeoFS.Lemmas.EpochStoresHist
+import NeoFS.Generated.Consts
+import NeoFS.Generated.Footprint
 /-! # C20 — Epoch-keyed, per-owner and configuration stores return exactly what was put
 
 Property theorems only. Model: `NeoFS/Model/EpochStores.lean` (byte-key level). Lemmas:
@@ -569,5 +571,55 @@ example : let s := run init [(alphaEnv, .nset [97] [1]), (alphaEnv, .nset [97, 9
       (⟨false, []⟩, .nset [97] [9])]
     cfgGet cfgP s.nmc [97] = some [1] ∧ cfgGet cfgP s.nmc [97, 98] = some [2] ∧ cfgGet cfgP s.nmc [] = some [3] ∧
     cfgGet cfgP s.nmc [98] = none ∧ cfgList cfgP s.nmc = [([], [3]), ([97], [1]), ([97, 98], [2])] := by decide
+
+/-! ## Frame of the models, regenerated: who can write the stores
+
+Checked by kernel evaluation over `NeoFS.Generated.Footprint.table` (grouped by contract: `contracts`), the MAY-WRITE footprint recomputed from the Go sources on
+every run (`extract footprint`; `Model/Footprint.lean`). `anyKey` is the family of all keys: Audit keys start with no constant. -/
+section Footprint
+open NeoFS.Footprint NeoFS.Generated.Footprint
+
+def fpRepCount : Fam := startingWith NeoFS.Generated.reputation_reputationCountPrefix_bytes
+def fpRepValue : Fam := startingWith NeoFS.Generated.reputation_reputationValuePrefix_bytes
+def fpOwnerKeys : Fam := startingWith NeoFS.Generated.neofsid_ownerKeysPrefix_bytes
+def fpEstimations : Fam := startingWith NeoFS.Generated.container_estimateKeyPrefix_bytes
+def fpEstimationEpochs : Fam := startingWith NeoFS.Generated.container_singleEstimatePrefix_bytes
+def fpNetmapConfig : Fam := startingWith NeoFS.Generated.netmap_configPrefix_bytes
+def fpNeoFSConfig : Fam := startingWith NeoFS.Generated.neofs_configPrefix_bytes
+
+/-- Reputation: only `put` stores anything (deployment apart), it writes only the counter and the value families and nothing is
+ever deleted. Audit: only `put` stores anything and only the upgrade deletes. NeoFSID: owner keys are put only by `addKey` and
+deleted only by `removeKey`. -/
+theorem reputation_audit_neofsid_stores_written_only_by_their_methods :
+    onlyBy contracts "reputation" "put" anyKey ["put"] = true ∧
+    writesWithin contracts "reputation" "put" [fpRepCount, fpRepValue] = true ∧
+    onlyBy contracts "reputation" "delete" anyKey ["_deploy"] = true ∧
+    onlyBy contracts "audit" "put" anyKey ["put"] = true ∧ onlyBy contracts "audit" "delete" anyKey ["_deploy"] = true ∧
+    onlyBy contracts "neofsid" "put" fpOwnerKeys ["addKey"] = true ∧ onlyBy contracts "neofsid" "delete" fpOwnerKeys ["removeKey"] = true ∧
+    onlyBy contracts "neofsid" "put" anyKey ["addKey"] = true := by decide +kernel
+
+/-- Container size estimations are stored only by `putContainerSize` and removed only by it (cleanup on put) and by the tick's
+cleanup (the upgrade migration apart); the per-node epoch lists only by `putContainerSize`. -/
+theorem estimations_written_only_by_put_and_cleanup :
+    onlyBy contracts "container" "put" fpEstimations ["putContainerSize"] = true ∧
+    onlyBy contracts "container" "delete" fpEstimations ["putContainerSize", "newEpoch", "_deploy"] = true ∧
+    onlyBy contracts "container" "put" fpEstimationEpochs ["putContainerSize"] = true ∧
+    writesWithin contracts "container" "putContainerSize" [fpEstimations, fpEstimationEpochs] = true ∧
+    writesWithin contracts "container" "newEpoch" [fpEstimations] = true := by decide +kernel
+
+/-- The configuration maps of Netmap and NeoFS are written only by `setConfig` (and at deployment) and never deleted. -/
+theorem configuration_maps_written_only_by_setConfig :
+    onlyBy contracts "netmap" "put" fpNetmapConfig ["setConfig", "_deploy"] = true ∧ onlyBy contracts "netmap" "delete" fpNetmapConfig [] = true ∧
+    onlyBy contracts "neofs" "put" fpNeoFSConfig ["setConfig", "_deploy"] = true ∧ onlyBy contracts "neofs" "delete" fpNeoFSConfig [] = true := by
+  decide +kernel
+
+example : does contracts "reputation" "put" "put" fpRepCount = true ∧ does contracts "reputation" "put" "put" fpRepValue = true ∧
+    does contracts "audit" "put" "put" anyKey = true ∧ does contracts "neofsid" "addKey" "put" fpOwnerKeys = true ∧
+    does contracts "neofsid" "removeKey" "delete" fpOwnerKeys = true ∧ does contracts "container" "putContainerSize" "put" fpEstimations = true ∧
+    does contracts "container" "newEpoch" "delete" fpEstimations = true ∧ does contracts "netmap" "setConfig" "put" fpNetmapConfig = true ∧
+    does contracts "neofs" "setConfig" "put" fpNeoFSConfig = true := by decide +kernel
+example : onlyBy (withRow contracts ⟨"neofsid", "key", "delete", "", "", NeoFS.Generated.neofsid_ownerKeysPrefix_bytes, false⟩)
+    "neofsid" "delete" fpOwnerKeys ["removeKey"] = false := by decide +kernel
+end Footprint
 
 end NeoFS.Props.C20
